@@ -88,7 +88,7 @@ static uint64_t hash_rules(YR_RULES* r) {
   Hash64 h;
   for (uint32_t i = 0; i < r->arena->num_buffers; i++) { YR_ARENA_BUFFER* b = &r->arena->buffers[i]; if (b->data && b->used) h.add(b->data, b->used); }
   h.add(r, sizeof(*r));
-  h.add(r->no_required_strings, sizeof(YR_BITMASK) * YR_BITMASK_SIZE(r->num_rules));
+  if (r->no_required_strings) h.add(r->no_required_strings, sizeof(YR_BITMASK) * YR_BITMASK_SIZE(r->num_rules));
   return h.h;
 }
 
